@@ -688,3 +688,111 @@ package pongo2
 //@   at mapupdate requires {C10} @registers-in-own-table-once m == doc.template.blocks && k == nameToken.Val && v == wrapper && !has(doc.template.blocks, nameToken.Val)
 //@   ensures {C10} @success-means-registered r1 == nil ==> (has(doc.template.blocks, nameToken.Val) && doc.template.blocks[nameToken.Val] == wrapper)
 //@   ensures {C10} @node-carries-the-name r1 == nil ==> (r0 != nil && typeis(r0, "*tagBlockNode") && unbox(r0, "*tagBlockNode").name == nameToken.Val)
+
+// ---- branching and looping tags (C09) ----
+//@ func (*tagIfNode).Execute
+//@   at IEvaluator.Evaluate requires {C09} @conditions-in-order arg0 == node.conditions[rangeindex + 1] && arg1 == ctx
+//@   at (*NodeWrapper).Execute#0 requires {C09} @branch-of-the-true-condition arg0 == node.wrappers[i] && VIsTrue(result) && arg1 == ctx && arg2 == writer
+//@   at (*NodeWrapper).Execute#1 requires {C09} @else-after-the-last-false-condition arg0 == node.wrappers[len(node.conditions)] && !VIsTrue(result) && i + 1 == len(node.conditions) && arg1 == ctx && arg2 == writer
+//@   invariant 0 {C09} @nothing-rendered-before-a-true-condition calls("(*NodeWrapper).Execute") == 0
+//@   ensures {C09} @at-most-one-branch calls("(*NodeWrapper).Execute") <= 1
+//@ func tagIfParser
+//@   at append[*NodeWrapper] requires {C09} @bodies-follow-their-conditions elem == wrapper && (len(ifNode.wrappers) + 1 == len(ifNode.conditions) || (elseSeen && len(ifNode.wrappers) == len(ifNode.conditions)))
+//@   at append[IEvaluator]#0 requires {C09} @the-if-condition len(ifNode.wrappers) == 0 && len(ifNode.conditions) == 0
+//@   at append[IEvaluator]#1 requires {C09} @one-condition-per-body len(ifNode.wrappers) == len(ifNode.conditions) && !elseSeen
+//@   invariant 0 {C09} @else-body-is-last (elseSeen ==> len(ifNode.wrappers) == len(ifNode.conditions)) && (!elseSeen ==> len(ifNode.wrappers) + 1 == len(ifNode.conditions))
+//@ func (*tagIfEqualNode).Execute
+//@   at IEvaluator.Evaluate#0 requires {C09} @first-operand arg0 == node.var1 && arg1 == ctx
+//@   at IEvaluator.Evaluate#1 requires {C09} @second-operand arg0 == node.var2 && arg1 == ctx
+//@   at (*Value).EqualValueTo requires {C09} @compares-the-two-values arg0 == r1 && arg1 == r2
+//@   at (*NodeWrapper).Execute#0 requires {C09} @then-when-equal arg0 == node.thenWrapper && lastresult("(*Value).EqualValueTo") && arg1 == ctx && arg2 == writer
+//@   at (*NodeWrapper).Execute#1 requires {C09} @else-when-different arg0 == node.elseWrapper && !lastresult("(*Value).EqualValueTo") && arg1 == ctx && arg2 == writer
+//@   ensures {C09} @at-most-one-branch calls("(*NodeWrapper).Execute") <= 1
+//@ func (*tagIfNotEqualNode).Execute
+//@   at IEvaluator.Evaluate#0 requires {C09} @first-operand arg0 == node.var1 && arg1 == ctx
+//@   at IEvaluator.Evaluate#1 requires {C09} @second-operand arg0 == node.var2 && arg1 == ctx
+//@   at (*Value).EqualValueTo requires {C09} @compares-the-two-values arg0 == r1 && arg1 == r2
+//@   at (*NodeWrapper).Execute#0 requires {C09} @then-when-different arg0 == node.thenWrapper && !lastresult("(*Value).EqualValueTo") && arg1 == ctx && arg2 == writer
+//@   at (*NodeWrapper).Execute#1 requires {C09} @else-when-equal arg0 == node.elseWrapper && lastresult("(*Value).EqualValueTo") && arg1 == ctx && arg2 == writer
+//@   ensures {C09} @at-most-one-branch calls("(*NodeWrapper).Execute") <= 1
+//@ func (*tagFirstofNode).Execute
+//@   at IEvaluator.Evaluate requires {C09} @arguments-in-order arg0 == node.args[rangeindex + 1] && arg1 == ctx
+//@   at TemplateWriter.WriteString requires {C09} @prints-the-true-argument lastresult("(*Value).IsTrue") && arg0 == writer
+//@   invariant 0 {C09} @nothing-printed-before-a-true-argument calls("TemplateWriter.WriteString") == 0
+//@   ensures {C09} @prints-at-most-one calls("TemplateWriter.WriteString") <= 1
+//@ func (*Parser).WrapUntilTag
+//@   ensures {C09} @ends-at-one-of-the-given-tags r2 == nil ==> (r0 != nil && r1 != nil && (exists i int :: 0 <= i && i < len(names) && r0.Endtag == names[i]))
+// nothing retains or writes the caller's list of end-tag names (frame fact, ASSUMED: the element heap of
+// []string is shared with slices that parsers append to, and the engine has no ownership for it)
+//@   ensures @assume-names-not-written forall j int :: (0 <= j && j < len(names)) ==> names[j] == old(names[j])
+//@   at append[INode] requires {C09} @wrapped-nodes-in-source-order elem == node
+//@ func (*NodeWrapper).Execute
+//@   at INode.Execute requires {C09,C10} @nodes-in-source-order arg0 == wrapper.nodes[rangeindex + 1] && arg1 == ctx && arg2 == writer
+//@ func (*nodeDocument).Execute
+//@   at INode.Execute requires {C09,C10} @nodes-in-source-order arg0 == doc.Nodes[rangeindex + 1] && arg1 == ctx && arg2 == writer
+//@ func (*tagForNode).Execute
+//@   at mapupdate requires {C09} @publishes-its-loop-information k == "forloop" && typeis(v, "*tagForLoopInformation") && unbox(v, "*tagForLoopInformation") == loopInfo
+//@   at IEvaluator.Evaluate requires {C09} @iterated-object arg0 == node.objectEvaluator && arg1 == forCtx
+//@   at (*Value).IterateOrder requires {C09} @iterates-as-requested arg0 == obj && arg3 == node.reversed && arg4 == node.sorted
+//@   at mapupdate requires {C09} @initial-position loopInfo.First && !loopInfo.Last && loopInfo.Counter == 0 && loopInfo.Counter0 == 0
+//@   at mapupdate requires {C09} @parentloop-is-the-enclosing-loop (has(ctx.Private, "forloop") ==> parentloop == ctx.Private["forloop"]) && (typeis(parentloop, "*tagForLoopInformation") ==> loopInfo.Parentloop == unbox(parentloop, "*tagForLoopInformation")) && (!typeis(parentloop, "*tagForLoopInformation") ==> loopInfo.Parentloop == nil)
+// the position fields are written by the loop's own callback only (and initialised by Execute)
+//@ writers {C09} F|tagForLoopInformation|First (*tagForNode).Execute$1
+//@ writers {C09} F|tagForLoopInformation|Last (*tagForNode).Execute$1
+//@ writers {C09} F|tagForLoopInformation|Counter (*tagForNode).Execute$1
+//@ writers {C09} F|tagForLoopInformation|Counter0 (*tagForNode).Execute$1
+//@ writers {C09} F|tagForLoopInformation|Revcounter (*tagForNode).Execute$1
+//@ writers {C09} F|tagForLoopInformation|Revcounter0 (*tagForNode).Execute$1
+//@ writers {C09} F|tagForLoopInformation|Parentloop
+//@ func (*tagForNode).Execute$1
+//@   requires {C09} @position-in-range 0 <= idx && idx < count
+//@   at mapupdate#0 requires {C09} @binds-the-element k == node.key && typeis(v, "*Value") && unbox(v, "*Value") == key
+//@   at mapupdate#1 requires {C09} @binds-the-map-value k == node.value && typeis(v, "*Value") && unbox(v, "*Value") == value && value != nil
+//@   at (*NodeWrapper).Execute requires {C09} @body-sees-the-current-position arg0 == node.bodyWrapper && loopInfo.Counter == idx + 1 && loopInfo.Counter0 == idx && loopInfo.Revcounter == count - idx && loopInfo.Revcounter0 == count - idx - 1
+//@   at (*NodeWrapper).Execute requires {C09} @first-and-last-flags (idx == 1 ==> !loopInfo.First) && (idx != 1 ==> loopInfo.First == old(loopInfo.First)) && (idx + 1 == count ==> loopInfo.Last) && (idx + 1 != count ==> loopInfo.Last == old(loopInfo.Last))
+//@   ensures {C09} @body-once-per-element calls("(*NodeWrapper).Execute") == 1
+//@   ensures {C09} @stops-only-on-error r0 == (lastresult("(*NodeWrapper).Execute") == nil)
+//@ func (*tagForNode).Execute$2
+//@   at (*NodeWrapper).Execute requires {C09} @empty-branch arg0 == node.emptyWrapper
+//@ func tagForParser
+//@   ensures {C09} @empty-branch-only-if-written r1 == nil ==> (typeis(r0, "*tagForNode") && unbox(r0, "*tagForNode").bodyWrapper != nil)
+// IterateOrder hands the callback the positions 0,1,2,... in order with the same count, and calls
+// empty exactly when the callback was never called
+//@ func (*Value).IterateOrder
+//@   at param.fn requires {C09} @position-in-range 0 <= arg0 && arg0 < arg1
+//@   at param.fn#0 requires {C09} @map-entries-in-key-order arg0 == idx && arg1 == len(keys) && arg2 != nil && arg2.val == key && arg3 != nil && arg3.val == lastresult("(reflect.Value).MapIndex")
+//@   at param.fn#1 requires {C09} @items-in-order arg0 == idx && arg1 == itemCount && arg1 == len(items) && arg2 == item && arg2 == items[idx] && arg3 == nil
+//@   at param.fn#1 requires {C09} @elements-forward-or-reversed-as-requested !sorted ==> (arg2 != nil && arg2.val == RVIndex(Resolved(v.val), ite(reverse, itemCount - 1 - idx, idx)))
+//@   invariant 3 {C09} @items-stay-as-arranged !sorted ==> (len(items) == itemCount && (forall k int :: (0 <= k && k < itemCount) ==> (items[k] != nil && birth(items[k]) < now && items[k].val == RVIndex(Resolved(v.val), ite(reverse, itemCount - 1 - k, k)))))
+//@   at param.fn#2 requires {C09} @runes-in-order arg0 == i && arg1 == charCount && arg1 == len(rs) && arg3 == nil
+//@   at param.empty#0 requires {C09} @empty-map len(keys) == 0
+//@   at param.empty#1 requires {C09} @empty-list len(items) == 0
+//@   at param.empty#2 requires {C09} @empty-string charCount == 0
+//@   invariant 0 {C09} @one-call-per-entry calls("param.fn") == rangeindex + 1 && calls("param.empty") == 0
+//@   invariant 1 {C09} @no-calls-while-collecting calls("param.fn") == 0 && calls("param.empty") == 0
+//@   invariant 1 {C09} @collects-the-elements-in-index-order len(items) == i && (forall k int :: (0 <= k && k < i) ==> (items[k] != nil && birth(items[k]) < now && items[k].val == RVIndex(Resolved(v.val), k)))
+//@   invariant 2 {C09} @no-calls-while-reversing calls("param.fn") == 0 && calls("param.empty") == 0
+//@   invariant 2 {C09} @mirrors-the-outer-positions len(items) == itemCount && 0 <= i && (forall k int :: (0 <= k && k < itemCount) ==> (items[k] != nil && birth(items[k]) < now && items[k].val == RVIndex(Resolved(v.val), ite(k < i || k > itemCount - 1 - i, itemCount - 1 - k, k))))
+//@   invariant 3 {C09} @one-call-per-item calls("param.fn") == rangeindex + 1 && calls("param.empty") == 0
+//@   invariant 4 {C09} @no-calls-while-reversing calls("param.fn") == 0 && calls("param.empty") == 0
+//@   invariant 5 {C09} @one-call-per-rune calls("param.fn") == i && calls("param.empty") == 0
+//@   ensures {C09} @empty-exactly-when-nothing-was-iterated calls("param.empty") <= 1 && ((calls("param.empty") == 1) <==> (calls("param.fn") == 0))
+// cycle: the position lives in the execution context, keyed by the node; next returns the argument at the
+// remembered position (0 when nothing valid is remembered) and remembers the following one, round-robin
+//@ spec CyclePos(has bool, st any, n int) int = ite(has && typeis(st, "int") && 0 <= unbox(st, "int") && unbox(st, "int") < n, unbox(st, "int"), 0)
+//@ func (*tagCycleNode).next
+//@   ensures {C09} @argument-at-the-remembered-position r0 == node.args[CyclePos(old(has(ctx.nodeState, box(node))), old(ctx.nodeState[box(node)]), len(node.args))]
+//@   ensures {C09} @remembers-the-following-position-round-robin has(ctx.nodeState, box(node)) && typeis(ctx.nodeState[box(node)], "int") && unbox(ctx.nodeState[box(node)], "int") == ite(CyclePos(old(has(ctx.nodeState, box(node))), old(ctx.nodeState[box(node)]), len(node.args)) + 1 == len(node.args), 0, CyclePos(old(has(ctx.nodeState, box(node))), old(ctx.nodeState[box(node)]), len(node.args)) + 1)
+//@ func (*tagCycleNode).Execute
+//@   at (*tagCycleNode).next#0 requires {C09} @advances-its-own-position arg0 == node && arg1 == ctx
+//@   at IEvaluator.Evaluate#0 requires {C09} @evaluates-the-current-argument arg0 == lastresult("(*tagCycleNode).next") && arg1 == ctx
+// ifchanged: with watched expressions the body is rendered when there is no previous value or one of the
+// previous values differs from the current one; the current values are remembered for the next execution
+//@ func (*tagIfchangedNode).Execute
+//@   at IEvaluator.Evaluate requires {C09} @watched-expressions-in-order arg0 == node.watchedExpr[rangeindex + 1] && arg1 == ctx
+//@   at append[*Value] requires {C09} @current-values-in-order elem == val
+//@   at (*Value).EqualValueTo requires {C09} @previous-against-current-at-the-same-position arg0 == oldVal && arg1 == nowValues[idx]
+//@   at (*NodeWrapper).Execute#1 requires {C09} @body-when-changed arg0 == node.thenWrapper && (calls("(*Value).EqualValueTo") == 0 || !lastresult("(*Value).EqualValueTo")) && arg1 == ctx && arg2 == writer
+//@   at (*NodeWrapper).Execute#2 requires {C09} @else-when-unchanged arg0 == node.elseWrapper && calls("(*Value).EqualValueTo") > 0 && lastresult("(*Value).EqualValueTo") && arg1 == ctx && arg2 == writer
+//@   at TemplateWriter.Write requires {C09} @content-printed-only-when-it-differs !lastresult("bytes.Equal") && arg0 == writer
+//@   invariant 1 {C09} @all-previous-positions-compared-equal calls("(*Value).EqualValueTo") == rangeindex + 1 && (rangeindex >= 0 ==> lastresult("(*Value).EqualValueTo"))
